@@ -68,13 +68,16 @@ def records_for(ctx, d, rng, k, rid0):
             sparse = m.sparse_templates if use == 'templates' else m.sparse_clusters
             ids = m.spike_templates if use == 'templates' else m.spike_clusters
             n = m.n_templates if use == 'templates' else m.n_clusters
-            W = np.asarray(sparse.data)
+            W = np.array(sparse.data)          # a snapshot: the formulas are about the STORED arrays
             f = [1.0, 2.0, 0.5][(k + (use == 'clusters')) % 3]
             inp = dict(dataset=k, use=use, factor=f, empty=empty, curated=curated)
             with ctx.guard('true', inp):
                 sa, resc, ampsv = m.get_amplitudes_true(sample2unit=f, use=use)
                 cnt = max(1, int(np.bincount(np.asarray(ids)).max()))
                 peak = (np.max(resc, axis=1) - np.min(resc, axis=1)).max(axis=1)
+                if not np.array_equal(np.asarray(sparse.data), W):
+                    raise D.MachineryError if False else ValueError(
+                        'get_amplitudes_true modified the stored waveforms of the model in place')
                 recs.append(dict(
                     id=rid0 + len(recs), kind='true', use=use, W=ints(W), wmi4=wmi4, ids=as_list(ids),
                     amps=amps, f2=int(2 * f), n=int(n), spike8=ints(sa, 8),
